@@ -624,6 +624,7 @@ int main(int argc, char **argv)
 				*progress = j;
 				fprintf(c04_res, "F %d\n", c04_table[j].id);
 				c04_run(&c04_table[j]);
+				fflush(c04_res);     /* a later abrupt death must not lose this function's results */
 			}
 			fflush(c04_res);
 			fflush(stdout);
@@ -881,11 +882,10 @@ def operand_class(f, expr, ids, tup):
             return "count<size"
         if y == w:
             return "count==size"
-        if y < 64:
-            return "size<count<64"
-        if y < (1 << 31):
-            return "64<=count<2^31"
-        return "count>=2^31"
+        if w > 64:
+            # the translator hands the count to an `int` parameter through bignum_to_uint64
+            return "count>size" if y < (1 << 31) else "count>=2^31"
+        return "size<count<64" if y < 64 else "count>=64"
     if fam == "cmp":
         if x == y:
             return "equal"
@@ -1070,6 +1070,10 @@ def _worker(shard):
     workdir = tempfile.mkdtemp(prefix="c04_")
     try:
         vio, stats = evaluate(funcs, shadow, rt_objs, workdir, name)
+    except Exception:
+        if os.environ.get("C04_KEEP"):
+            shutil.copytree(workdir, os.path.join(os.environ["C04_KEEP"], name))
+        raise
     finally:
         shutil.rmtree(workdir, ignore_errors=True)
     stats["outcomes"] = sorted(stats["outcomes"])
